@@ -83,7 +83,12 @@ pub fn crypto_secretbox_open_detached(
 ) -> Result<(), Error> {
     let c_len = ciphertext.len();
     message[..c_len].copy_from_slice(ciphertext);
-    crypto_secretbox_open_detached_inplace(message, mac, nonce, key)
+    let res = crypto_secretbox_open_detached_inplace(message, mac, nonce, key);
+    if res.is_err() {
+        // leave nothing derived from the rejected ciphertext in the output
+        message[..c_len].fill(0);
+    }
+    res
 }
 
 /// Encrypts `message` with `nonce` and `key`.
